@@ -38,6 +38,8 @@ struct Gen {
     nc: bool,
     lim: i64,
     metas: Vec<Meta>,
+    /// script files for the `.` built-in: (path, content)
+    dots: Vec<(String, String)>,
 }
 
 const LETTERS: &[u8] = b"ABCDEFGHIJKLMNOPQRSTUVWXYZabdefghijklmnopqrstuvwxy";
@@ -53,10 +55,17 @@ impl Gen {
         xs[self.rng.gen_range(0..xs.len())]
     }
 
-    fn redir(&mut self, here_ok: bool) -> Value {
+    /// `here_ok`: here-documents allowed; `stable`: only files whose kind no
+    /// command changes (elements of a pipeline run concurrently: whether a
+    /// file another element creates exists yet would be a race)
+    fn redir(&mut self, here_ok: bool, stable: bool) -> Value {
         let t = self.pick(&[0, 1, 1, 2, 2, 3, 3, 4, 5, 6, 7, 8, 9]);
         let x = self.rng.gen_range(0..100);
-        let path = self.pick(&["a", "a", "b", "c", "m", "m", "n", "d", "t"]);
+        let path = if stable {
+            self.pick(&["a", "a", "b", "c", "d", "t"])
+        } else {
+            self.pick(&["a", "a", "b", "c", "m", "m", "n", "d", "t"])
+        };
         let n = self.pick(&[0, 0, 1, 1, 1, 2, 2, 2, 3, 3, 4, 5, 6, 7, 8, 9, 10, 11]);
         let (op, path, n) = match x {
             0..=9 => ("in", path, -1),
@@ -76,12 +85,13 @@ impl Gen {
         } else {
             vec![]
         };
-        json!({"t": t, "op": op, "path": path, "n": n, "data": data})
+        let cs = !path.is_empty() && !stable && self.rng.gen_range(0..100) < 12;
+        json!({"t": t, "op": op, "path": path, "n": n, "data": data, "cs": cs})
     }
 
-    fn redirs(&mut self, max: usize, here_ok: bool) -> Vec<Value> {
+    fn redirs(&mut self, max: usize, here_ok: bool, stable: bool) -> Vec<Value> {
         let n = self.rng.gen_range(0..=max);
-        (0..n).map(|_| self.redir(here_ok)).collect()
+        (0..n).map(|_| self.redir(here_ok, stable)).collect()
     }
 
     fn marks(&mut self) -> String {
@@ -135,9 +145,9 @@ impl Gen {
         if kind == "exec" && !exec_ok {
             kind = "group";
         }
-        let mut list = self.redirs(4, true);
+        let mut list = self.redirs(4, true, false);
         if kind == "empty" && list.is_empty() {
-            list.push(self.redir(true));
+            list.push(self.redir(true, false));
         }
         let mut bst = if matches!(kind, "builtin" | "function" | "group") && self.rng.gen_bool(0.3) { 3 } else { 0 };
         let marks = self.marks();
@@ -162,6 +172,12 @@ impl Gen {
                 _ => format!("case x in x) {body};; esac {rs}"),
             },
             "function" => format!("f{l} {rs}"),
+            // the other special built-in that runs commands: `.` reads them from a
+            // file, which the shell keeps open on a descriptor of its own meanwhile
+            "special" if self.rng.gen_bool(0.5) => {
+                self.dots.push((format!("/tmp/dot{l}"), format!("{body}\n")));
+                format!(". /tmp/dot{l} {rs}")
+            }
             _ => {
                 let t = scen::command_text(kind, bst, &json!([]), &tag, &marks, "");
                 format!("{} {rs}", t.trim_end())
@@ -176,7 +192,7 @@ impl Gen {
 
     fn nest(&mut self, l: char, depth: usize, out: &mut String) {
         let kind = self.pick(&["group", "function", "subshell"]);
-        let list = self.redirs(3, true);
+        let list = self.redirs(3, true, false);
         let mut bodies = String::new();
         let mut dn = 0;
         let rs = scen::redirs_text(&json!(list), &mut bodies, &mut dn);
@@ -220,7 +236,7 @@ impl Gen {
         }
         let n = letters.len();
         for (j, &e) in letters.iter().enumerate() {
-            let user = self.redirs(2, false);
+            let user = self.redirs(2, false, true);
             let mut bodies = String::new();
             let mut dn = 0;
             let rs = scen::redirs_text(&json!(user), &mut bodies, &mut dn);
@@ -242,7 +258,7 @@ impl Gen {
     }
 
     fn subst(&mut self, l: char, depth: usize, out: &mut String) {
-        let user = self.redirs(2, false);
+        let user = self.redirs(2, false, false);
         let mut bodies = String::new();
         let mut dn = 0;
         let rs = scen::redirs_text(&json!(user), &mut bodies, &mut dn);
@@ -254,8 +270,9 @@ impl Gen {
     }
 }
 
-fn gen_script(seed: u64) -> (String, Vec<Meta>) {
-    let mut g = Gen { rng: StdRng::seed_from_u64(seed), next: 0, nc: false, lim: NO_LIMIT, metas: vec![] };
+fn gen_script(seed: u64) -> (String, Vec<Meta>, Vec<(String, String)>) {
+    let mut g =
+        Gen { rng: StdRng::seed_from_u64(seed), next: 0, nc: false, lim: NO_LIMIT, metas: vec![], dots: vec![] };
     let mut s = String::from("trap 'obs z' EXIT\n");
     let n = g.rng.gen_range(4..=9);
     for _ in 0..n {
@@ -271,7 +288,7 @@ fn gen_script(seed: u64) -> (String, Vec<Meta>) {
             _ => g.command(0, true, &mut s),
         }
     }
-    (s, g.metas)
+    (s, g.metas, g.dots)
 }
 
 /// `random --runs N --out records.ndjson [--scripts file]`
@@ -286,9 +303,9 @@ pub fn random(args: &[String]) -> i32 {
     let mut dropped = 0usize;
     for run in 0..runs {
         let seed = base.wrapping_mul(1_000_003).wrapping_add(run as u64);
-        let (script, metas) = gen_script(seed);
+        let (script, metas, dots) = gen_script(seed);
         let as_file = run % 4 == 3;
-        let r = scen::run_script(&script, as_file, TRACKED_P3);
+        let r = scen::run_script_with(&script, as_file, TRACKED_P3, &dots);
         if let Some(e) = probe::TOOL_ERROR.with(|t| t.borrow_mut().take()) {
             eprintln!("yv-c09: observation failed: {e}");
             return 2;
